@@ -1,6 +1,6 @@
 (* C09 -- mpsc channels: count, FIFO views, ordering (local lemmas).
    Statements restated in full, closed with exact, assumptions printed. *)
-Require Import LV.Base LV.VV LV.VVFacts LV.Path LV.PathSpec LV.Prog LV.Objects LV.Exec LV.Atomic LV.Ops LV.Check LV.Ref LV.Outcome LV.Witness LV.SyncFacts LV.CheckFacts.
+Require Import LV.Base LV.VV LV.VVFacts LV.Path LV.PathSpec LV.Prog LV.Objects LV.Exec LV.Atomic LV.Ops LV.Check LV.Ref LV.Outcome LV.Witness LV.SyncFacts LV.CheckFacts LV.ExecFacts LV.SyncMono.
 
 (* a send increments the count and appends the accumulated sender view for the receiver of that message *)
 Theorem C09_send_publishes :
@@ -55,3 +55,29 @@ Theorem C09_channel_handover :
        b < length (e_threads e2) -> vle (caus_of e a) (caus_of e3 b).
 Proof. exact channel_handover. Qed.
 Print Assumptions C09_channel_handover.
+
+(* GLOBAL FIFO: with n messages queued ahead, any receive that follows at least n other receives (over any steps) acquires the sender's clock *)
+Theorem C09_channel_fifo_handover_global :
+  forall (e : exec) (a h : nat) (v : N) (s : chan_state) (n : nat) 
+         (e1 e2 : exec) (b : nat) (lg : bool) (e3 : exec),
+       get_chan e h = Some s ->
+       Forall (vle (caus_of e a)) (skipn n (ch_recv_sync s)) ->
+       exec_micro e a (MSendPost h v) = MOk e1 ->
+       recvs h n e1 e2 ->
+       b < length (e_threads e2) ->
+       exec_micro e2 b (MRecvPost h lg) = MOk e3 -> vle (caus_of e a) (caus_of e3 b).
+Proof. exact channel_fifo_handover_global. Qed.
+Print Assumptions C09_channel_fifo_handover_global.
+
+(* GLOBAL: a send on a queue whose pending views already dominate the sender is acquired by the next receive, whatever happens in between *)
+Theorem C09_channel_handover_global :
+  forall (e : exec) (a h : nat) (v : N) (s : chan_state) (e1 e2 : exec) 
+         (b : nat) (lg : bool) (e3 : exec),
+       get_chan e h = Some s ->
+       Forall (vle (caus_of e a)) (ch_recv_sync s) ->
+       exec_micro e a (MSendPost h v) = MOk e1 ->
+       steps e1 e2 ->
+       b < length (e_threads e2) ->
+       exec_micro e2 b (MRecvPost h lg) = MOk e3 -> vle (caus_of e a) (caus_of e3 b).
+Proof. exact channel_handover_global. Qed.
+Print Assumptions C09_channel_handover_global.
